@@ -83,6 +83,7 @@ func runC05(c *Ctx) {
 		return
 	}
 	c05Halving(c, "C05-D5")
+	c05ExtendPost(c)
 	c04Shift(c, "C05-D5") // the collapsing stores reuse the dense window-moving primitives on every non-collapsing and shifting path
 	c05EmptyEdge(c)
 	for _, ct := range cts {
@@ -1070,4 +1071,68 @@ func lenUnver(l *Linear) *Linear {
 		}
 	}
 	return out
+}
+
+// c05ExtendPost (C05-D8): extendRange(newMin, newMax) is the only way the window grows; every caller indexes the bins
+// for the requested range right after it. So every path through it must end by establishing a window for the
+// REQUESTED range: it hands (≤ newMin, ≥ newMax) to adjust, or stores such bounds itself. A path that returns
+// without doing either (an "already collapsed, nothing to do" shortcut) leaves the requested maximum (lowest) or
+// minimum (highest) outside the window, and the merge that follows indexes past the array.
+func c05ExtendPost(c *Ctx) {
+	const rule = "C05-D8"
+	dense := c.P.NamedType(pkgStore, "DenseStore")
+	var ts []*types.Named
+	ts = append(ts, dense)
+	if cts, err := collapsingTypes(c); err == "" {
+		for _, ct := range cts {
+			ts = append(ts, ct.t)
+		}
+	}
+	covers := func(t *Term, param int, fld string) bool {
+		t = t.unver()
+		if t.isParam(param) {
+			return true
+		}
+		if t.Op == "field" && t.Sym == fld {
+			return true // the current bound (the requested one was folded into it by an open-coded min/max)
+		}
+		hit := false
+		t.walk(func(x *Term) bool {
+			if x.isParam(param) {
+				hit = true
+			}
+			return true
+		})
+		return hit && (t.Op == "call" || t.Op == "builtin" || t.Op == "phi")
+	}
+	n := 0
+	for _, t := range ts {
+		f := c.P.DeclaredMethod(t, "extendRange")
+		if f == nil {
+			continue
+		}
+		tname := t.Obj().Name()
+		paths, _ := execNoInline(c, f, nil, 1)
+		for i, p := range paths {
+			n++
+			viaAdjust, minS, maxS := false, false, false
+			for _, e := range p.Effects {
+				if e.Kind == "call" && (isMethodCall(e.Call, "adjust") || isMethodCall(e.Call, "centerCounts")) && len(e.Call.Args) == 3 && covers(e.Call.Args[1], 1, dr.minIndex) && covers(e.Call.Args[2], 2, dr.maxIndex) {
+					viaAdjust = true
+				}
+				if e.Kind == "store" && e.Addr.unver().Op == "field" {
+					switch e.Addr.unver().Sym {
+					case dr.minIndex:
+						minS = covers(e.Val, 1, dr.minIndex)
+					case dr.maxIndex:
+						maxS = covers(e.Val, 2, dr.maxIndex)
+					}
+				}
+			}
+			c.R.check(viaAdjust || minS && maxS, rule, fmt.Sprintf("%s.extendRange/path%d[%s]/window-for-requested-range", tname, i, pathSig(p)), shortFn(f), c.fpos(f),
+				"the path hands the requested (newMin, newMax) to adjust/centerCounts or stores bounds derived from them: no return leaves the requested range outside the window",
+				fmt.Sprintf("adjust with the requested range=%v, stores minIndex=%v maxIndex=%v; [%s]", viaAdjust, minS, maxS, p.String()))
+		}
+	}
+	c.R.floor(rule, "extendRange paths", n, 9)
 }
